@@ -44,13 +44,14 @@ fn main() {
                 "splitopt" => gen2::splitopt(size, &mut out),
                 "fromstr" => gen3::fromstr(size, &mut rng, &mut out),
                 "regs" => gen3::regs(size, &mut out),
+                "sibs" => gen3::sibs(size, &mut out),
                 "oci" => gen3::oci(size, &mut out),
                 "threads" => gen3::threads(size, &mut rng, &mut out),
                 _ => usage(),
             }
             gen::write(&out, &args[7]);
         }
-        Some("suites") => println!("hist family scope scope1 parse cells prio dup orders pairs single clonescope junk parsefocus ascii groups splitopt fromstr regs oci threads"),
+        Some("suites") => println!("hist family scope scope1 parse cells prio dup orders pairs single clonescope junk parsefocus ascii groups splitopt fromstr regs sibs oci threads"),
         Some("run") if args.len() == 6 => {
             let input = std::io::BufReader::new(std::fs::File::open(&args[2]).expect("ops"));
             let mut full = BufWriter::new(std::fs::File::create(&args[3]).expect("full"));
